@@ -12,7 +12,9 @@ const RELS: [&str; 4] = ["equal", "cwd-ancestor-of-base", "cwd-inside-base", "un
 const SHELLS: [&str; 6] = ["default", "bash -c", "argv-script", "/bin/sh  -e   -c", "bash --norc -c", "argv-script extra1 extra2"];
 const NAME_SHAPES: [(&str, &str); 3] = [("s.txt.txtpp", "s.txt"), ("s.txtpp.txt", "s.txt"), ("s.txtpp", "s")];
 /// (name, source lines of the command directive, expected stdout under sh, the single argument the shell must see)
-const SHAPES: [(&str, &[&str], &str, &str); 3] = [
+const SHAPES: [(&str, &[&str], &str, &str); 5] = [
+    ("stderr-is-not-output", &["-TXTPP#run echo out; echo err >&2"], "out\n", "echo out; echo err >&2"),
+    ("empty-continuation-line", &["-TXTPP#run echo a", "-", "-  b  "], "a b\n", "echo a    b"),
     ("one-line", &["-TXTPP#run echo a  b"], "a b\n", "echo a  b"),
     ("three-lines", &["-TXTPP#run echo a", "-b", "-c"], "a b c\n", "echo a b c"),
     ("inner-double-space", &["-TXTPP#run echo \"a  b\""], "a  b\n", "echo \"a  b\""),
@@ -147,7 +149,13 @@ fn run_case(rep: &Report, c: &ConfCase) {
     let out = l.src_dir.join(out_name);
     let text = match c.shape {
         Some(s) => {
-            let mut t = String::from("-TXTPP#run pwd -P\n+TXTPP#run printf '%s\\n' \"$TXTPP_FILE\"\n");
+            // at depth >= 2 the source also has a .txtpp dependency: the commands run in its second pass
+            let mut t = String::new();
+            if c.depth >= 2 {
+                std::fs::write(l.src_dir.join("dep.txt.txtpp"), "D\n").unwrap();
+                t.push_str("TXTPP#include dep.txt\n");
+            }
+            t.push_str("-TXTPP#run pwd -P\n+TXTPP#run printf '%s\\n' \"$TXTPP_FILE\"\n");
             for line in SHAPES[s].1 {
                 t.push_str(line);
                 t.push('\n');
@@ -207,7 +215,16 @@ fn run_case(rep: &Report, c: &ConfCase) {
                 );
                 return;
             }
-            let got = got.unwrap_or_default();
+            let mut got = got.unwrap_or_default();
+            if c.depth >= 2 {
+                match got.strip_prefix("D\n") {
+                    Some(rest) => got = rest.to_string(),
+                    None => {
+                        rep.violate("dependency-output-missing", format!("{:?}: output does not start with the included dependency: {:?}", c, got), case_json(c));
+                        return;
+                    }
+                }
+            }
             let lines: Vec<&str> = got.lines().collect();
             if argv_shell {
                 // every command line is echoed as argc + the configured extra arguments + the single command argument
@@ -240,7 +257,7 @@ fn run_case(rep: &Report, c: &ConfCase) {
 
 fn guard_cases(rep: &Report) {
     // the binary refuses to start when TXTPP_FILE is already set — in every mode; nothing is touched
-    for mode_args in [vec![], vec!["-N"], vec!["verify"], vec!["clean"]] {
+    for (mode_args, value) in [(vec![], "whatever"), (vec!["-N"], "whatever"), (vec!["verify"], "whatever"), (vec!["clean"], "whatever"), (vec![], " "), (vec!["verify"], "x y")] {
         let l = layout(1, "equal");
         std::fs::write(l.src_dir.join("s.txt.txtpp"), "x\n-TXTPP#temp t.out\n-y\n").unwrap();
         std::fs::write(l.src_dir.join("s.txt"), "old\n").unwrap();
@@ -249,7 +266,7 @@ fn guard_cases(rep: &Report) {
         let before = snapshot(&l.base);
         let mut args: Vec<&str> = mode_args.clone();
         args.extend(["-q", "-r", "."]);
-        let (code, to) = run_cli(&l.cwd, &args, &[("TXTPP_FILE", "whatever")], 30.0);
+        let (code, to) = run_cli(&l.cwd, &args, &[("TXTPP_FILE", value)], 30.0);
         rep.tv(1);
         rep.add("guard_cases", 1);
         let after = snapshot(&l.base);
@@ -257,7 +274,7 @@ fn guard_cases(rep: &Report) {
         if to || code == 0 || !ch.is_empty() {
             rep.violate(
                 "subcommand-guard",
-                format!("txtpp {:?} with TXTPP_FILE set: exit {code} timeout={to}, changed paths {:?}", args, ch),
+                format!("txtpp {:?} with TXTPP_FILE={value:?}: exit {code} timeout={to}, changed paths {:?}", args, ch),
                 json!({"engine": "E-conf", "guard": mode_args}),
             );
         }
@@ -285,7 +302,7 @@ pub fn run_c17(tier: &str) -> i32 {
     let rep = Report::new("C17", tier);
     let cs = cases();
     rep.set("cases_planned", json!(cs.len()));
-    rep.set("bounds", json!("depth 0..3 x {library x 4 base/cwd relations, CLI x cwd=base} x 6 shells (default, bash -c, shells with several arguments and repeated blanks, an argv-echo script with and without extra arguments) x three source-name shapes x (3 command shapes + exit codes 0/1/7 + death by SIGKILL); TXTPP_FILE guard in 4 modes; a source that calls txtpp"));
+    rep.set("bounds", json!("depth 0..3 x {library x 4 base/cwd relations, CLI x cwd=base} x 6 shells (default, bash -c, shells with several arguments and repeated blanks, an argv-echo script with and without extra arguments) x three source-name shapes x (5 command shapes + exit codes 0/1/7 + death by SIGKILL); TXTPP_FILE guard in 4 modes; a source that calls txtpp"));
     rep.assume("TXTPP_FILE 'designates' the source if it resolves to it as an absolute path, relative to the base directory or relative to the command's directory (Q5)");
     rep.st(4 * 4 * 6);
     sharded_dyn(&rep, par_threads(), |k, _n, next, rep| {
